@@ -30,7 +30,8 @@ def replay_one(job):
     rec, rs, keep_lb, base = job
     out = []
     d = tempfile.mkdtemp(dir=base)
-    case = dict(p=rec["p"], rows=rec["rows"], conts=rec["conts"], best=rec["best"], restarts=sorted(rs), keep_lb=keep_lb)
+    case = dict(p=rec["p"], rows=rec["rows"], conts=rec["conts"], best=rec["best"], besttrn=rec.get("besttrn"),
+                restarts=sorted(rs), keep_lb=keep_lb)
 
     def bad(site, kind, detail):
         out.append((dict(site=site, kind=kind), detail, case))
@@ -74,6 +75,9 @@ def replay_one(job):
                 bad("__getitem__", "info", "controller[e] differs from get_info(e)")
             if sim.ctl.get_best_epoch() != rec["best"][i]:
                 bad("get_best_epoch", "value", "epoch %d best %r expected %r" % (e, sim.ctl.get_best_epoch(), rec["best"][i]))
+            if "besttrn" in rec and sim.ctl.get_best_epoch(True) != rec["besttrn"][i]:
+                bad("get_best_epoch", "value_train_met", "epoch %d best by training metric %r expected %r" % (
+                    e, sim.ctl.get_best_epoch(True), rec["besttrn"][i]))
             if sim.ctl.get_last_epoch() != e:
                 bad("get_last_epoch", "value", "epoch %d last %r" % (e, sim.ctl.get_last_epoch()))
             if bool(sim.ctl.continue_training()) != rec["conts"][i]:
@@ -219,6 +223,8 @@ def replay(ctx, case):
         print("history comparison case; re-run the check to reproduce")
         return
     rec = dict(p=case["p"], rows=case["rows"], conts=case["conts"], best=case["best"])
+    if case.get("besttrn"):
+        rec["besttrn"] = case["besttrn"]
     out = replay_one((rec, frozenset(case["restarts"]), case["keep_lb"], ctx.workdir))
     for sig, detail, c in out:
         if isinstance(sig, dict):
